@@ -30,6 +30,7 @@ class ProcessWorker(Worker):
         self._comms = Pipe()
         self._ctrl_comms = Pipe()
         self._is_child = False
+        self._early_result = None # the final message of the child, if it was read before the child has exited (see _join)
         super().__init__(*args, **kwargs)
         assert not self.is_child
         self._comms.child_end.close()
@@ -73,7 +74,7 @@ class ProcessWorker(Worker):
             raise ValueError('A worker cannot wait for itself')
         if not self.is_alive():
             return True
-        self._child.join(timeout)
+        self._join(timeout)
         alive = self._child.is_alive()
         if not alive:
             self._dead = True
@@ -98,7 +99,7 @@ class ProcessWorker(Worker):
                 pass
 
             self._release_child()
-            self._child.join(timeout)
+            self._join(timeout)
             if self._child.is_alive():
                 if force:
                     self._child.terminate()
@@ -115,11 +116,28 @@ class ProcessWorker(Worker):
                 self._ctrl_comms.parent_end.close()
             return not alive
 
+    def _join(self, timeout):
+        ''' Wait for the child process to exit. A child sending a final message bigger than the pipe buffer is blocked
+            until we read it - and it cannot exit before that - so read the message while waiting.
+        '''
+        if self._early_result is None:
+            ready = mp.connection.wait([self._comms.parent_end, self._child.sentinel], timeout)
+            if self._comms.parent_end in ready:
+                try:
+                    self._early_result = self._comms.parent_end.get()
+                except queue.Empty:
+                    pass
+                except Exception:
+                    logger.exception('Could not receive the result from the child')
+                    self._early_result = ((False, None), self._user_state)
+        self._child.join(timeout)
+
     def _get_result(self):
         if self.is_alive():
             assert self._result is None
             return None
         if self._result is None:
+            self._result = self._early_result
             #assert not self._comms[0].empty()
             #self._comms.child_end.close()
             while True:
